@@ -71,6 +71,7 @@ type facts struct {
 	structure        structFacts
 	wiring           wiringFacts
 	own              ownFacts // ownership.go
+	modKinds         []string // modkinds.go
 }
 
 // ---------------------------------------------------------------------------
@@ -1999,6 +2000,7 @@ func render(fx *facts, read []string) string {
 
 	renderStruct(&b, &fx.structure)
 	renderOwnership(&b, &fx.own)
+	renderModifierKinds(&b, fx.modKinds)
 
 	q = nil
 	for _, s := range uniq(sortedStrings(fx.typeErrors)) {
@@ -2047,6 +2049,7 @@ func main() {
 		r.scanGoPkg(p, fx)
 	}
 	r.scanOwnership(im, fx)
+	fx.modKinds = r.scanModifierKinds()
 	for e := range im.errs {
 		fx.typeErrors = append(fx.typeErrors, e)
 	}
